@@ -203,6 +203,45 @@ func ruleLRUInitUnconditionalFor(c *Ctx, rule, spec string) {
 			}
 		}
 	}
+	// and the other way round: once pendingWrites > 0 holds, no path reaches a return without the stores
+	if ok {
+		sizeTest := Guard{Name: "pendingWrites>0", Match: func(cond ssa.Value) (bool, bool) {
+			bo, isBo := cond.(*ssa.BinOp)
+			if !isBo {
+				return false, false
+			}
+			if p, isP := bo.X.(*ssa.Parameter); isP && p == fn.Params[2] && IsConstInt(0)(bo.Y) {
+				switch bo.Op.String() {
+				case ">", "!=":
+					return true, true
+				case "<=", "==":
+					return true, false
+				}
+			}
+			return false, false
+		}}
+		edges, m := PassEdges(fn, sizeTest)
+		isStore := map[ssa.Instruction]bool{}
+		for _, st := range stores {
+			isStore[st] = true
+		}
+		if m > 0 {
+			// take the first test from the entry: the one whose block dominates all the others
+			for _, e := range edges {
+				start := e.From.Succs[e.Idx]
+				if !e.From.Dominates(stores[0].Block()) {
+					continue
+				}
+				r := NewReachFromBlock(start, nil, func(in ssa.Instruction) bool { return isStore[in] })
+				for _, b := range fn.Blocks {
+					if ret, isRet := b.Instrs[len(b.Instrs)-1].(*ssa.Return); isRet && r.Reaches(ret) {
+						ok = false
+						why = "with pendingWrites > 0 a path returns from init without re-creating the buffers"
+					}
+				}
+			}
+		}
+	}
 	c.Check(ok, rule, spec+":buffers re-created whenever pendingWrites>0", c.Pos(fn.Pos()), "map, list and pending channels are made anew on every init"+func() string {
 		if why != "" {
 			return "; " + why + " — entries and queued writes from before a tracker reload would survive it"
